@@ -37,13 +37,15 @@ type sthread struct {
 }
 
 type Sched struct {
-	threads []*sthread
-	cur     int // running thread (-1 before start)
-	prefix  []int
-	exec    *Execution
-	finish  chan struct{}
-	diverge string
-	on      bool
+	threads  []*sthread
+	cur      int // running thread (-1 before start)
+	prefix   []int
+	exec     *Execution
+	finish   chan struct{}
+	finished bool
+	diverge  string
+	on       bool
+	spin     int // consecutive Blocked() calls without a scheduling point in between
 }
 
 // enabledOrder returns the canonical order of enabled threads.
@@ -93,10 +95,42 @@ func (s *Sched) Point() {
 	if !s.on {
 		return
 	}
+	s.spin = 0
 	me := s.cur
 	next := s.decide()
 	if next == me {
 		return
+	}
+	s.cur = next
+	s.threads[next].resume <- struct{}{}
+	<-s.threads[me].resume
+}
+
+// Blocked is called by the running thread when it cannot take a lock (the instrumented retry loop around TryLock):
+// control goes to the next unfinished thread in round-robin order. This is a forced switch, not a choice - no point is
+// recorded and it costs no preemption. When every unfinished thread has reported Blocked in turn, several times over,
+// without any of them reaching a scheduling point, the execution is deadlocked: it is ended and reported.
+func (s *Sched) Blocked() {
+	if !s.on {
+		return
+	}
+	me := s.cur
+	s.spin++
+	next := -1
+	for k := 1; k <= len(s.threads); k++ {
+		t := s.threads[(me+k)%len(s.threads)]
+		if !t.done && t.id != me {
+			next = t.id
+			break
+		}
+	}
+	if next < 0 || s.spin > 4*len(s.threads) {
+		s.diverge = "deadlock: every unfinished thread is waiting for a lock that no runnable thread holds (lock order, or a lock that is never released on some path)"
+		if !s.finished {
+			s.finished = true
+			close(s.finish)
+		}
+		select {} // this goroutine is abandoned
 	}
 	s.cur = next
 	s.threads[next].resume <- struct{}{}
@@ -111,6 +145,8 @@ func (s *Sched) Run(bodies []func() []byte, prefix []int, setOn func(bool)) (*Ex
 	s.exec = &Execution{Results: make([][]byte, len(bodies))}
 	s.cur = -1
 	s.diverge = ""
+	s.spin = 0
+	s.finished = false
 	s.finish = make(chan struct{})
 	for i := range bodies {
 		t := &sthread{id: i, resume: make(chan struct{})}
@@ -132,7 +168,10 @@ func (s *Sched) Run(bodies []func() []byte, prefix []int, setOn func(bool)) (*Ex
 			t.done = true
 			next := s.decide()
 			if next < 0 {
-				close(s.finish)
+				if !s.finished {
+					s.finished = true
+					close(s.finish)
+				}
 				return
 			}
 			s.cur = next
@@ -174,6 +213,7 @@ func Explore(mk func() []func() []byte, bound int, setOn func(bool), shard, nsha
 	st := SchedStats{Outcomes: map[string]int{}}
 	s := &Sched{}
 	SchedHook = s.Point
+	SchedBlockedHook = s.Blocked
 	seq := 0
 	var explore func(prefix []int, depth int)
 	explore = func(prefix []int, depth int) {
@@ -239,5 +279,8 @@ func Explore(mk func() []func() []byte, bound int, setOn func(bool), shard, nsha
 	return st
 }
 
-// SchedHook is what the instrumentation's PointFn should call.
-var SchedHook func()
+// SchedHook is what the instrumentation's PointFn should call; SchedBlockedHook what its BlockedFn should call.
+var (
+	SchedHook        func()
+	SchedBlockedHook func()
+)
